@@ -1003,6 +1003,12 @@ func (bc *BlockChain) WriteBlockWithState(block *types.Block, receipts []*types.
 	if reorg {
 		// Reorganise the chain if the parent is not the head block
 		if block.ParentHash() != currentBlock.Hash() {
+			// Flush the block's header, body and receipts before reorg points the
+			// canonical index and the head markers at it (data before pointers).
+			if err := batch.Write(); err != nil {
+				return NonStatTy, err
+			}
+			batch.Reset()
 			if err := bc.reorg(currentBlock, block); err != nil {
 				return NonStatTy, err
 			}
